@@ -575,8 +575,6 @@ class Prop:
             for ka in itertools.product(KINDS, repeat=N):
                 shape = [rng.choice([2, 3]) for _ in range(N)]
                 for name, tr in templates(shape):
-                    if quick and N == 2 and rng.random() > 0.4:
-                        continue
                     for _ in range(6):
                         env = pair(shape, list(ka))
                         how = rng.choice(["all", "all", "first", "subset"])
@@ -584,7 +582,7 @@ class Prop:
                         if add(mk(env, tr, m, "template", template=name, mask_class=mc,
                                   api=rng.choice(["func", "method"]), ctor=(how == "all" and rng.random() < 0.5))):
                             break
-        for _ in range(120 if quick else 1500):
+        for _ in range(400 if quick else 2500):
             N = 3 if rng.random() < 0.8 else 4
             shape = [rng.choice([1, 2, 3]) for _ in range(N)]
             shape[0] = max(shape[0], 2)
@@ -599,7 +597,7 @@ class Prop:
             for ka in kinds_list:
                 shape = [rng.choice([2, 3]) for _ in range(N)]
                 tl = templates(shape)
-                for (name, tr) in (rng.sample(tl, 3 if quick else 10)):
+                for (name, tr) in (rng.sample(tl, 6 if quick else 14)):
                     env = pair(shape, list(ka))
                     for m, mc in single_masks(env):
                         add(mk(env, tr, m, "single", template=name, mask_class=mc))
@@ -607,8 +605,6 @@ class Prop:
         for N in (1, 2, 3):
             for k0 in KINDS:
                 for s0, k in ((3, 3), (4, 3), (6, 3), (5, 2), (2, 1), (4, 1), (3, 2)):
-                    if quick and rng.random() > 0.6:
-                        continue
                     shape = [s0] + [rng.choice([1, 2, 3]) for _ in range(N - 1)]
                     kinds = [k0] + [rng.choice(KINDS) for _ in range(N - 1)]
                     for _ in range(6):
@@ -627,7 +623,7 @@ class Prop:
                   ("dist(a,b)", ["dist", L0, L1]), ("dot(a,b)", ["dot", L0, L1]), ("var(a)", ["var", L0]),
                   ("norm(a[:2]-a[-2:])", ["norm", ["sub", ["get", [{"s": [None, 2, None]}], L0], ["get", [{"s": [-2, None, None]}], L0]]]),
                   ("sum(a*a)", ["sum", ["mul", L0, L0]])]
-        for _ in range(60 if quick else 500):
+        for _ in range(150 if quick else 800):
             N = rng.randint(1, 3); shape = [rng.choice([2, 3, 4]) for _ in range(N)]
             shape[0] = max(shape[0], 3)
             flt = rng.random() < 0.5
@@ -645,7 +641,7 @@ class Prop:
             m, mc = masks_for(env, rng.choice(["all", "all", "subset"]))
             add(mk(env, tr, m, "orthoU", template=name, mask_class=mc, ortho="qr" if flt else "int"))
         # ---- E. broadcasting operands (size-1 modes on either side)
-        for _ in range(50 if quick else 400):
+        for _ in range(120 if quick else 600):
             N = rng.randint(1, 3); full = [rng.choice([2, 3]) for _ in range(N)]
             sa = [1 if rng.random() < 0.4 else d for d in full]; sb = [1 if rng.random() < 0.4 else d for d in full]
             env = [rand_tensor_json(rng, sa, maxr=2), rand_tensor_json(rng, sb, maxr=2)]
@@ -655,7 +651,7 @@ class Prop:
             m, mc = masks_for(env, rng.choice(["all", "subset"]))
             add(mk(env, tr, m, "broadcast", mask_class=mc))
         # ---- F. tensor-valued dot (operands with different numbers of modes)
-        for _ in range(30 if quick else 300):
+        for _ in range(60 if quick else 400):
             Nb = rng.randint(2, 3); sb = [rng.choice([2, 3]) for _ in range(Nb)]
             Na = rng.randint(1, Nb - 1); sa = sb[:Na]
             env = [rand_tensor_json(rng, sa, maxr=2), rand_tensor_json(rng, sb, maxr=2)]
@@ -677,7 +673,7 @@ class Prop:
                     m, mc = masks_for(env, rng.choice(["all", "subset"]))
                     add(mk(env, tr, m, "scalar", mask_class=mc, skind=kind, side=side, scalar="%d/%d" % c))
         # ---- H. random trees
-        for _ in range(330 if quick else 4000):
+        for _ in range(1200 if quick else 8000):
             N = rng.randint(1, 3); shape = [rng.choice([1, 2, 3]) for _ in range(N)]
             nleaf = rng.randint(1, 3)
             for _try in range(6):
@@ -687,7 +683,7 @@ class Prop:
                 if add(mk(env, tr, m, "tree", mask_class=mc, api=rng.choice(["func", "method"]))):
                     break
         # ---- I. one SGD step of tn.optimize
-        for _ in range(40 if quick else 300):
+        for _ in range(100 if quick else 500):
             N = rng.randint(1, 3); shape = [rng.choice([2, 3]) for _ in range(N)]
             env = pair(shape, maxr=2)
             name, tr = rng.choice(templates(shape))
